@@ -169,6 +169,151 @@ def wire_check(layers, b):
             return None            # arp, eap, dhcp, dns, rip, ND messages: no length/checksum field to recompute
     return None
 
+# ----------------------------------------------------------------------------- independent reference encoder
+
+def _tcp_opt_bytes(o):
+    t = o["t"]
+    if t in (0, 1): return bytes([t])
+    if t == 2: return struct.pack("!BBH", 2, 4, o["v"])
+    if t == 3: return bytes([3, 3, o["v"]])
+    if t == 4: return bytes([4, 2])
+    if t == 5: return bytes([5, 2 + 8 * len(o["v"])]) + b"".join(struct.pack("!II", a, b) for a, b in o["v"])
+    if t == 8: return struct.pack("!BBII", 8, 10, o["v"][0], o["v"][1])
+    d = bytes.fromhex(o["v"]); return bytes([t, 2 + len(d)]) + d
+
+def _nd_opts_bytes(opts):
+    out = b""
+    for o in opts:
+        t = o["t"]
+        if t in (1, 2): body = bytes.fromhex(o["addr"])
+        elif t == 5: body = b"\0\0" + struct.pack("!I", o["mtu"])
+        elif t == 3: body = struct.pack("!BBII", o["plen"], (0x80 if o["onlink"] else 0) | (0x40 if o["auto"] else 0), o["valid"], o["pref"]) + bytes(4) + bytes.fromhex(o["prefix"])
+        else: body = bytes.fromhex(o["raw"])
+        if (len(body) + 2) % 8: return None
+        out += bytes([t, (len(body) + 2) // 8]) + body
+    return out
+
+def ref_encode(layers):
+    """The frame the formats (RFC 791/768/793/792/826/8200/4443/4861/2131/3396/2453/3032/7348, 802.1Q) prescribe for this layer list,
+    written from the RFCs without any library code; None when a layer is outside this encoder.  Returns (bytes, [(offset, kind)])."""
+    marks = []
+    def enc(i, ctx, off):
+        L = layers[i]; k = L["k"]
+        if k == "bytes": return bytes.fromhex(L["data"])
+        if k == "none": return b""
+        marks.append((off, k))
+        rest = lambda n, c=None: enc(i + 1, c, off + n)
+        if k == "ethernet":
+            r = rest(14); return None if r is None else bytes.fromhex(L["dst"]) + bytes.fromhex(L["src"]) + struct.pack("!H", L["type"]) + r
+        if k == "vlan":
+            r = rest(4); return None if r is None else struct.pack("!HH", (L["pcp"] << 13) | (L["cfi"] << 12) | L["id"], L["eth_type"]) + r
+        if k == "mpls":
+            r = rest(4); return None if r is None else struct.pack("!I", (L["label"] << 12) | (L["tc"] << 9) | (L["s"] << 8) | L["ttl"]) + r
+        if k == "arp":
+            if L["hwlen"] != 6 or L["protolen"] != 4: return None
+            r = rest(28)
+            return None if r is None else (struct.pack("!HHBBH", L["hwtype"], L["prototype"], 6, 4, L["opcode"]) + bytes.fromhex(L["hwsrc"]) + struct.pack("!I", L["protosrc"]) +
+                                           bytes.fromhex(L["hwdst"]) + struct.pack("!I", L["protodst"]) + r)
+        if k == "ipv4":
+            opts = bytes.fromhex(L["raw_options"]); hl = 20 + len(opts)
+            if L.get("_noid") or L["hl"] * 4 != hl: return None
+            r = rest(hl, ("4", struct.pack("!I", L["srcip"]), struct.pack("!I", L["dstip"]), L["protocol"]))
+            if r is None or hl + len(r) > 65535: return None
+            h = struct.pack("!BBHHHBBHII", (L["v"] << 4) | L["hl"], L["tos"], hl + len(r), L["id"], (L["flags"] << 13) | L["frag"], L["ttl"], L["protocol"], 0, L["srcip"], L["dstip"]) + opts
+            return h[:10] + struct.pack("!H", rfc1071(h)) + h[12:] + r
+        if k == "ipv6":
+            if L.get("ext"): return None
+            r = rest(40, ("6", bytes.fromhex(L["srcip"]), bytes.fromhex(L["dstip"]), L["nh"]))
+            if r is None or len(r) > 65535: return None
+            return struct.pack("!IHBB", (6 << 28) | (L["tc"] << 20) | L["flow"], len(r), L["nh"], L["hop_limit"]) + bytes.fromhex(L["srcip"]) + bytes.fromhex(L["dstip"]) + r
+        def pseudo(n, proto):
+            if ctx[0] == "4": return ctx[1] + ctx[2] + struct.pack("!BBH", 0, ctx[3], n)
+            return ctx[1] + ctx[2] + struct.pack("!IHBB", n, 0, 0, ctx[3])
+        if k == "udp":
+            r = rest(8)
+            if r is None or ctx is None or 8 + len(r) > 65535: return None
+            h = struct.pack("!HHHH", L["srcport"], L["dstport"], 8 + len(r), 0)
+            c = rfc1071(pseudo(8 + len(r), 17) + h + r) or 0xffff
+            return h[:6] + struct.pack("!H", c) + r
+        if k == "tcp":
+            ob = b"".join(_tcp_opt_bytes(o) for o in L["options"]); ob += bytes(-len(ob) % 4)
+            r = rest(20 + len(ob))
+            if r is None or ctx is None or len(ob) > 40: return None
+            h = struct.pack("!HHIIBBHHH", L["srcport"], L["dstport"], L["seq"], L["ack"], (((20 + len(ob)) // 4) << 4) | L["res"], L["flags"], L["win"], 0, L["urg"]) + ob
+            c = rfc1071(pseudo(len(h) + len(r), 6) + h + r)
+            return h[:16] + struct.pack("!H", c) + h[18:] + r
+        if k == "icmp":
+            r = rest(4)
+            if r is None: return None
+            return struct.pack("!BBH", L["type"], L["code"], rfc1071(struct.pack("!BBH", L["type"], L["code"], 0) + r)) + r
+        if k in ("echo", "echo6"):
+            r = rest(4); return None if r is None else struct.pack("!HH", L["id"], L["seq"]) + r
+        if k == "unreach":
+            r = rest(4); return None if r is None else struct.pack("!HH", L["unused"], L["next_mtu"]) + r
+        if k in ("time_exceeded", "unreach6"):
+            r = rest(4); return None if r is None else struct.pack("!I", L["unused"]) + r
+        if k == "toobig6":
+            r = rest(4); return None if r is None else struct.pack("!I", L["mtu"]) + r
+        if k == "timeex6":
+            r = rest(4); return None if r is None else bytes(4) + r
+        if k == "icmpv6":
+            nxt = layers[i + 1]
+            if nxt["k"].startswith("nd_"):
+                o = _nd_opts_bytes(nxt.get("opts", []))
+                if o is None: return None
+                marks.append((off + 4, nxt["k"]))
+                if nxt["k"] == "nd_rs": r = bytes(4) + o
+                elif nxt["k"] == "nd_ra": r = struct.pack("!BBHII", nxt["hop_limit"], (0x80 if nxt["managed"] else 0) | (0x40 if nxt["other"] else 0), nxt["lifetime"], nxt["reachable"], nxt["retrans"]) + o
+                elif nxt["k"] == "nd_ns": r = bytes(4) + bytes.fromhex(nxt["target"]) + o
+                else: r = bytes([(0x80 if nxt["router"] else 0) | (0x40 if nxt["solicited"] else 0) | (0x20 if nxt["override"] else 0), 0, 0, 0]) + bytes.fromhex(nxt["target"]) + o
+            else:
+                r = rest(4)
+            if r is None or ctx is None or ctx[0] != "6": return None
+            h = struct.pack("!BBH", L["type"], L["code"], 0)
+            c = rfc1071(ctx[1] + ctx[2] + struct.pack("!IHBB", 4 + len(r), 0, 0, 58) + h + r)
+            return h[:2] + struct.pack("!H", c) + r
+        if k == "vxlan":
+            r = rest(8)
+            if r is None: return None
+            return (bytes(8) if L["vni"] is None else bytes([8, 0, 0, 0]) + struct.pack("!I", L["vni"] << 8)) + r
+        if k == "rip":
+            out = struct.pack("!BBH", L["command"], L["version"], 0)
+            for e in L["entries"]:
+                if not 0 <= e["metric"] < 0x80000000: return None          # D50
+                out += struct.pack("!HHIIII", e["af"], e["tag"], e["ip"], e["mask"], e["nh"], e["metric"])
+            return out
+        if k == "igmp":
+            if L["vt"] == 0x22: return None
+            h = struct.pack("!BBHI", L["vt"], L["mrt"], 0, L["addr"]) + bytes.fromhex(L["extra"])
+            return h[:2] + struct.pack("!H", rfc1071(h)) + h[4:]
+        if k == "dhcp":
+            if not L["options"]: return None          # an option-less object is a BOOTP message; the library emits no option field at all for it
+            ch = bytes.fromhex(L["chaddr"])
+            out = struct.pack("!BBBBIHHIIII", L["op"], L["htype"], L["hlen"], L["hops"], L["xid"], L["secs"], L["flags"], L["ciaddr"], L["yiaddr"], L["siaddr"], L["giaddr"])
+            out += ch.ljust(16, b"\0")[:16] + bytes.fromhex(L["sname"]).ljust(64, b"\0")[:64] + bytes.fromhex(L["file"]).ljust(128, b"\0")[:128] + bytes([0x63, 0x82, 0x53, 0x63])
+            for o in L["options"]:
+                v = C14._dhcp_opt_bytes(o)
+                if o["c"] in (0, 255): continue
+                for j in (range(0, len(v), 255) if len(v) > 255 else [0]):
+                    part = v[j:j + 255] if len(v) > 255 else v
+                    out += bytes([o["c"], len(part)]) + part + (b"\0" if len(part) % 2 else b"")
+            return out + b"\xff"
+        return None
+    b = enc(0, None, 0)
+    return (None, marks) if b is None else (b, marks)
+
+def ref_check(layers, b):
+    """None, or a description of the first byte of the emitted frame that differs from the reference encoding"""
+    try:
+        ref, marks = ref_encode(layers)
+    except (struct.error, KeyError, IndexError, ValueError, TypeError):
+        return None          # field values outside their wire ranges etc.: nothing to say
+    if ref is None or ref == b: return None
+    p = next((i for i in range(min(len(ref), len(b))) if ref[i] != b[i]), min(len(ref), len(b)))
+    off, kind = max((m for m in marks if m[0] <= p), default=(0, layers[0]["k"]))
+    return "reference %s: emitted frame differs from the wire format at byte %d (%s+%d): emitted %s, format says %s; %d vs %d bytes" % (
+        kind, p, kind, p - off, b[p:p + 1].hex() or "end", ref[p:p + 1].hex() or "end", len(b), len(ref))
+
 # ----------------------------------------------------------------------------- the check
 
 class C14(Check):
@@ -298,9 +443,10 @@ class C14(Check):
                                                  hwsrc=E(bytes.fromhex(L["hwsrc"])), hwdst=E(bytes.fromhex(L["hwdst"])),
                                                  protosrc=I(L["protosrc"]), protodst=I(L["protodst"])), n))
     def mk_ipv4(self, L, n):
-        return self.m["ipv4"].ipv4(**self._pl(dict(v=L["v"], hl=L["hl"], tos=L["tos"], iplen=L["iplen"], id=L["id"], flags=L["flags"], frag=L["frag"], ttl=L["ttl"],
-                                                   protocol=L["protocol"], csum=L["csum"], srcip=self.IPAddr(L["srcip"]), dstip=self.IPAddr(L["dstip"]),
-                                                   raw_options=bytes.fromhex(L["raw_options"])), n))
+        kw = dict(v=L["v"], hl=L["hl"], tos=L["tos"], iplen=L["iplen"], id=L["id"], flags=L["flags"], frag=L["frag"], ttl=L["ttl"],
+                  protocol=L["protocol"], csum=L["csum"], srcip=self.IPAddr(L["srcip"]), dstip=self.IPAddr(L["dstip"]), raw_options=bytes.fromhex(L["raw_options"]))
+        if L.get("_noid"): del kw["id"]          # identification left to the class counter (ipv4.ip_id)
+        return self.m["ipv4"].ipv4(**self._pl(kw, n))
     def mk_udp(self, L, n):
         return self.m["udp"].udp(**self._pl(dict(srcport=L["srcport"], dstport=L["dstport"], len=L["len"], csum=L["csum"]), n))
     def _tcpopt(self, o):
@@ -314,7 +460,8 @@ class C14(Check):
     def mk_tcp(self, L, n):
         t = self.m["tcp"].tcp(**self._pl(dict(srcport=L["srcport"], dstport=L["dstport"], seq=L["seq"], ack=L["ack"], off=L["off"], res=L["res"], flags=L["flags"],
                                                win=L["win"], csum=L["csum"], urg=L["urg"]), n))
-        t.options = [self._tcpopt(o) for o in L["options"]]
+        if L["options"] or not L.get("_defopts"):          # _defopts: an option-less segment keeps whatever the constructor gave it
+            t.options = [self._tcpopt(o) for o in L["options"]]
         return t
     def mk_icmp(self, L, n):
         return self.m["icmp"].icmp(**self._pl(dict(type=L["type"], code=L["code"], csum=L["csum"]), n))
@@ -425,9 +572,10 @@ class C14(Check):
         for op in L["options"]:
             c = op["c"]
             if c == 53: o.options[c] = M.DHCPMsgTypeOption(op["v"])
-            elif c in (1, 28, 50, 54): o.options[c] = M._dhcp_option_unpackers[c].__self__(self.IPAddr(op["v"]))
-            elif c in (3, 4, 6): o.options[c] = M._dhcp_option_unpackers[c].__self__([self.IPAddr(a) for a in op["v"]])
-            elif c in (51, 58, 59): o.options[c] = M._dhcp_option_unpackers[c].__self__(op["v"])
+            elif c in (1, 28, 50, 54):
+                o.options[c] = {1: M.DHCPSubnetMaskOption, 28: M.DHCPBroadcastAddressOption, 50: M.DHCPRequestIPOption, 54: M.DHCPServerIdentifierOption}[c](self.IPAddr(op["v"]))
+            elif c in (3, 4, 6): o.options[c] = {3: M.DHCPRoutersOption, 4: M.DHCPTimeServersOption, 6: M.DHCPDNSServersOption}[c]([self.IPAddr(a) for a in op["v"]])
+            elif c in (51, 58, 59): o.options[c] = {51: M.DHCPIPAddressLeaseTimeOption, 58: M.DHCPRenewalTimeOption, 59: M.DHCPRebindingTimeOption}[c](op["v"])
             elif c == 55: o.options[c] = M.DHCPParameterRequestOption(list(op["v"]))
             else: o.options[c] = M.DHCPRawOption(bytes.fromhex(op["v"]))
         return o
@@ -581,9 +729,16 @@ class C14(Check):
         if case["kind"] == "cksum":
             d = bytes.fromhex(case["data"])
             try:
-                return {"v": self.checksum(d, case["start"], case["skip"])}
+                v = self.checksum(d, case["start"], case["skip"])
+                # the call forms the code base uses (HARDENING 4): checksum(d), checksum(d, 0), checksum(d, 0, k), checksum(d, skip_word=k)
+                forms = {"keywords": self.checksum(d, start=case["start"], skip_word=case["skip"]), "again": self.checksum(d, case["start"], case["skip"])}
+                if case["start"] == 0:
+                    forms["skip_word_only"] = self.checksum(d, skip_word=case["skip"])
+                    if case["skip"] is None: forms["data_only"] = self.checksum(d); forms["two_positional"] = self.checksum(d, 0)
+                bad = sorted(k for k, x in forms.items() if x != v)
+                return {"v": v, "forms": bad} if bad else {"v": v}
             except Exception as e:
-                return {"exc": type(e).__name__, "where": self._where(e)}
+                return {"exc": type(e).__name__, "where": self._lib_exc(e)}
         obs = {}
         top = {"ethernet": self.m["ethernet"].ethernet, "ipv4": self.m["ipv4"].ipv4}[case["top"]]
         if case["kind"] == "mutparse":
@@ -606,32 +761,126 @@ class C14(Check):
             except Exception as e:
                 obs.update(repack_exc=type(e).__name__, stage="repack", where=self._where(e))
             return obs
-        try:
-            obj = self.build(case["layers"])
-        except Exception as e:
-            return {"exc": type(e).__name__, "stage": "build", "where": self._where(e)}
+        if case["kind"] == "seq":
+            return self.run_seq(case, top)
+        obs = self.run_stack(case["layers"], top)
+        obs.pop("_q", None); obs.pop("_obj", None)
+        return obs
+
+    def _lib_exc(self, e):
+        """an exception that did not pass through pox/lib was raised by this harness (or by calling the library in a way it no longer
+        accepts): that is a broken tie, not a failing input — let it propagate to common.safe_impl"""
+        w = self._where(e)
+        if w == "?": raise e
+        return w
+
+    def run_stack(self, layers, top, obj=None):
+        obs = {}
+        if obj is None:
+            try:
+                obj = self.build(layers)
+            except Exception as e:
+                return {"exc": type(e).__name__, "stage": "build", "where": self._lib_exc(e)}
         try:
             b = obj.pack()
         except Exception as e:
-            return {"exc": type(e).__name__, "stage": "pack", "where": self._where(e)}
+            return {"exc": type(e).__name__, "stage": "pack", "where": self._lib_exc(e)}
         obs["pack"] = b.hex()
         obs["built"] = self.chain(obj, True)
         try:
             q = top(raw=b)
         except Exception as e:
-            obs.update(exc2=type(e).__name__, stage="parse", where=self._where(e)); return obs
+            obs.update(exc2=type(e).__name__, stage="parse", where=self._lib_exc(e)); return obs
         obs["parsed"] = self.chain(q, False)
         try:
             b2 = q.pack()
         except Exception as e:
-            obs.update(repack_exc=type(e).__name__, stage="repack", where=self._where(e)); return obs
+            obs.update(repack_exc=type(e).__name__, stage="repack", where=self._lib_exc(e)); return obs
         obs["repack"] = b2.hex()
+        obs["_q"] = q; obs["_obj"] = obj
+        return obs
+
+    # ---- call histories on the same objects (HARDENING 1, 2, 4): what every call returns must be what a fresh process returns
+    SETTABLE = {"ethernet": {"dst": "mac", "src": "mac"}, "vlan": {"pcp": "int", "cfi": "int", "id": "int"},
+                "ipv4": {"tos": "int", "id": "int", "flags": "int", "ttl": "int", "srcip": "ip4", "dstip": "ip4"},
+                "udp": {"srcport": "int", "dstport": "int"},
+                "tcp": {"srcport": "int", "dstport": "int", "seq": "int", "ack": "int", "res": "int", "flags": "int", "win": "int", "urg": "int", "options": "tcpopts"},
+                "icmp": {"code": "int"}, "echo": {"id": "int", "seq": "int"}, "unreach": {"next_mtu": "int", "unused": "int"}, "time_exceeded": {"unused": "int"},
+                "ipv6": {"tc": "int", "flow": "int", "hop_limit": "int", "srcip": "ip6", "dstip": "ip6"}, "icmpv6": {"code": "int"}, "echo6": {"id": "int", "seq": "int"},
+                "mpls": {"label": "int", "tc": "int", "ttl": "int"}, "vxlan": {"vni": "int"}, "toobig6": {"mtu": "int"}, "unreach6": {"unused": "int"},
+                "nd_ra": {"hop_limit": "int", "lifetime": "int", "reachable": "int", "retrans": "int:retrans_timer"}, "bytes": {"data": "payload"}}
+
+    @staticmethod
+    def apply_delta(layers, delta):
+        out = [dict(L) for L in layers]
+        for d in delta: out[d["i"]][d["f"]] = d["v"]
+        return C14.fixup(out)
+
+    def _set(self, obj, layers, d):
+        hs = []; o = obj
+        while isinstance(o, self.packet_base): hs.append(o); o = o.next
+        L = layers[d["i"]]; how = self.SETTABLE[L["k"]][d["f"]]; v = d["v"]
+        if how == "payload": hs[d["i"] - 1].payload = bytes.fromhex(v); return
+        h = hs[d["i"]]
+        attr = d["f"]
+        if ":" in how: how, attr = how.split(":")
+        if how == "mac": v = self.EthAddr(bytes.fromhex(v))
+        elif how == "ip4": v = self.IPAddr(v)
+        elif how == "ip6": v = self.IPAddr6(bytes.fromhex(v), raw=True)
+        elif how == "tcpopts": v = [self._tcpopt(x) for x in v]
+        setattr(h, attr, v)
+
+    def run_seq(self, case, top):
+        obs = {}
+        LA = case["layers"]; LB = case.get("other"); delta = case.get("delta", [])
+        try:
+            if LB is not None and case.get("bfirst"): B = self.build(LB); A = self.build(LA)
+            else:
+                A = self.build(LA); B = self.build(LB) if LB is not None else None
+        except Exception as e:
+            return {"exc": type(e).__name__, "stage": "build", "where": self._lib_exc(e)}
+        try:
+            p1 = A.pack()
+        except Exception as e:
+            return {"exc": type(e).__name__, "stage": "pack", "where": self._lib_exc(e)}
+        obs["A1"] = {"pack": p1.hex(), "built": self.chain(A, True)}
+        if B is not None:
+            obs["B"] = self.run_stack(LB, top, obj=B)
+        try:
+            for d in delta: self._set(A, LA, d)
+        except Exception as e:
+            if "B" in obs: obs["B"].pop("_q", None); obs["B"].pop("_obj", None)
+            return dict(obs, exc=type(e).__name__, stage="set", where=self._lib_exc(e))
+        a2 = self.run_stack(self.apply_delta(LA, delta), top, obj=A)
+        obs["A2"] = a2
+        same = {}
+        if "repack" in a2:
+            b = bytes.fromhex(a2["pack"]); q = a2["_q"]
+            try:
+                same["pack_again"] = (A.pack() == b)                       # a third pack of the built object
+                same["repack_again"] = (q.pack().hex() == a2["repack"])     # a second pack of the parsed object
+                want = a2["parsed"]
+                same["parse_again"] = (self.chain(top(raw=b), False) == want)
+                same["parse_positional"] = (self.chain(top(b), False) == want)
+                same["parse_unpack"] = (self.chain(top.unpack(b), False) == want)
+                e = top(); e.parse(b)
+                same["parse_method"] = (self.chain(e, False) == want)
+                if B is not None and "pack" in obs["B"]:
+                    u = top(raw=bytes.fromhex(obs["B"]["pack"])); u.parse(b)            # an object that parsed another frame before
+                    same["parse_reused_object"] = (self.chain(u, False) == want)
+                    same["other_unchanged"] = (B.pack().hex() == obs["B"]["pack"])
+            except Exception as e:
+                same["exc"] = "%s at %s" % (type(e).__name__, self._lib_exc(e))
+        obs["same"] = same
+        for o in (obs.get("B"), a2):
+            if o: o.pop("_q", None); o.pop("_obj", None)
         return obs
 
     # ------------------------------------------------------------------ model
     def modelled(self, case):
         if case["kind"] == "cksum": return True
-        return all((L["k"] in MODELLED and not L.get("ext")) or L["k"] in TERMINAL for L in case["layers"])
+        ok = lambda Ls: all((L["k"] in MODELLED and not L.get("ext")) or L["k"] in TERMINAL for L in Ls)
+        return ok(case["layers"]) and (case.get("other") is None or ok(case["other"]))
 
     @staticmethod
     def _mlayer(L):
@@ -652,13 +901,44 @@ class C14(Check):
         if c == 55: return bytes(v)
         return bytes.fromhex(v)
 
-    def model_request(self, case):
+    @staticmethod
+    def _noid(case):
+        return any(L.get("_noid") for key in ("layers", "other") for L in (case.get(key) or []))
+
+    def _stack_req(self, case, layers, built=None):
+        Ls = [self._mlayer(L) for L in layers]
+        if built is not None:
+            # an IPv4 header built without `id=` takes its identification from the class counter: the model is asked about the
+            # identification the object was seen to have (HARDENING 1: the counter itself is state the model does not have)
+            for L, bu in zip(Ls, built):
+                if L["k"] == "ipv4" and bu.get("k") == "ipv4": L["id"] = bu["id"]
+        return {"op": "stack", "top": case["top"], "cfg": self.variant, "layers": Ls}
+
+    def model_request(self, case, obs=None):
         if case["kind"] == "cksum":
             return {"op": "cksum", "data": case["data"], "start": case["start"], "skip": case["skip"]}
         if not self.modelled(case): return None
+        if self._noid(case) and obs is None: return None
         if case["kind"] == "mutparse":
             return {"op": "mutparse", "top": case["top"], "mut": case["mut"], "cfg": self.variant, "layers": [self._mlayer(L) for L in case["layers"]]}
-        return {"op": "stack", "top": case["top"], "cfg": self.variant, "layers": [self._mlayer(L) for L in case["layers"]]}
+        if case["kind"] == "seq":
+            bu = (lambda o: o.get("built") if obs is not None and o is not None else None)
+            steps = [self._stack_req(case, case["layers"], bu(obs and obs.get("A1")))]
+            if case.get("other") is not None: steps.append(self._stack_req(case, case["other"], bu(obs and obs.get("B"))))
+            steps.append(self._stack_req(case, self.apply_delta(case["layers"], case.get("delta", [])), bu(obs and obs.get("A2"))))
+            return {"op": "seq", "steps": steps}
+        return self._stack_req(case, case["layers"], obs.get("built") if obs is not None else None)
+
+    def model_request2(self, case, obs):
+        if case["kind"] in ("stack", "seq") and self.modelled(case) and self._noid(case) and isinstance(obs, dict) and ("built" in obs or "A2" in obs):
+            return self.model_request(case, obs)
+        return None
+
+    @staticmethod
+    def _stack_view(resp, keys=("pack", "built", "parsed", "repack", "repack_exc")):
+        if "error" in resp: return resp
+        if "exc" in resp: return {"exc": resp["exc"]}
+        return {k: resp[k] for k in keys if k in resp}
 
     def model_obs(self, case, resp):
         if case["kind"] == "mutparse":
@@ -676,8 +956,12 @@ class C14(Check):
             if resp["spec"] != want:
                 return {"lean_spec": resp["spec"], "harness_spec": want}          # the two RFC 1071 transcriptions disagree
             return {"v": resp["code"]}
-        if "exc" in resp: return {"exc": resp["exc"]}
-        return {k: resp[k] for k in ("pack", "built", "parsed", "repack", "repack_exc") if k in resp}
+        if case["kind"] == "seq":
+            st = resp["steps"]
+            out = {"A1": self._stack_view(st[0], ("pack", "built")), "A2": self._stack_view(st[-1])}
+            if case.get("other") is not None: out["B"] = self._stack_view(st[1])
+            return out
+        return self._stack_view(resp)
 
     def impl_view(self, case, obs):
         if case["kind"] == "mutparse":
@@ -685,8 +969,14 @@ class C14(Check):
             if "exc" in obs: return {"exc": obs["exc"]}
             return {k: obs[k] for k in ("raw", "parsed", "repack", "repack_exc", "exc2") if k in obs}
         if case["kind"] == "cksum": return {"v": obs["v"]} if "v" in obs else {"exc": obs["exc"]}
-        if "exc" in obs: return {"exc": obs["exc"]}
-        return {k: obs[k] for k in ("pack", "built", "parsed", "repack", "repack_exc", "exc2") if k in obs}
+        sv = lambda o: {"exc": o["exc"]} if "exc" in o else {k: o[k] for k in ("pack", "built", "parsed", "repack", "repack_exc", "exc2") if k in o}
+        if case["kind"] == "seq":
+            if "A1" not in obs: return {"A1": {"exc": obs["exc"]}}
+            out = {"A1": obs["A1"]}
+            if "B" in obs: out["B"] = sv(obs["B"])
+            if "A2" in obs: out["A2"] = sv(obs["A2"])
+            return out
+        return sv(obs)
 
     # ------------------------------------------------------------------ the property, on the implementation's observables
     @staticmethod
@@ -702,16 +992,46 @@ class C14(Check):
     def oracle(self, case, obs):
         if case["kind"] == "cksum":
             if "exc" in obs: return "checksum() raises %s at %s" % (obs["exc"], obs["where"])
+            if obs.get("forms"): return "checksum() call forms disagree: %s" % ",".join(obs["forms"])
             if case["start"] == 0:
                 want = rfc1071(zero_word(bytes.fromhex(case["data"]), case["skip"]))
                 if obs["v"] != want: return "checksum() = %04x, RFC 1071 = %04x" % (obs["v"], want)
             return None
         if case["kind"] == "mutparse":
             return None          # damaged input: C14 states nothing about it (C15 does); these cases only exercise the model's parsers
+        if case["kind"] == "seq":
+            return self.seq_oracle(case, obs)
+        return self.stack_oracle(case["layers"], obs)
+
+    def seq_oracle(self, case, obs):
+        """every call of the history gives what the same call gives on fresh objects: the per-stack property for each pack/parse, and
+        equal results for repeated calls"""
+        if "exc" in obs and "A1" not in obs:
+            return "%s raises %s at %s" % ("pack()" if obs["stage"] == "pack" else "constructor", obs["exc"], obs["where"])
+        LA = case["layers"]
+        w = wire_check(LA, bytes.fromhex(obs["A1"]["pack"]))
+        if w is not None: return "wire %s: %s" % w
+        r = ref_check(LA, bytes.fromhex(obs["A1"]["pack"]))
+        if r is not None: return r
+        if "B" in obs:
+            f = self.stack_oracle(case["other"], obs["B"])
+            if f is not None: return "[second object] " + f
+        if "exc" in obs: return "setting a field raises %s at %s" % (obs["exc"], obs["where"])
+        f = self.stack_oracle(self.apply_delta(LA, case.get("delta", [])), obs["A2"])
+        if f is not None: return ("[pack after a field change] " if case.get("delta") else "[second pack] ") + f
+        sm = obs["same"]
+        if "exc" in sm: return "repeating a call raises %s" % sm["exc"]
+        for k in ("pack_again", "repack_again", "parse_again", "parse_positional", "parse_unpack", "parse_method", "parse_reused_object", "other_unchanged"):
+            if sm.get(k) is False: return "repeated call differs: %s" % k
+        return None
+
+    def stack_oracle(self, layers, obs):
         if "exc" in obs: return "%s raises %s at %s" % ("pack()" if obs["stage"] == "pack" else "constructor", obs["exc"], obs["where"])
         b = bytes.fromhex(obs["pack"])
-        w = wire_check(case["layers"], b)
+        w = wire_check(layers, b)
         if w is not None: return "wire %s: %s" % w
+        r = ref_check(layers, b)
+        if r is not None: return r
         if "exc2" in obs: return "parsing the packed bytes raises %s at %s" % (obs["exc2"], obs["where"])
         bu, pa = self._norm(obs["built"]), self._norm(obs["parsed"])
         for i in range(max(len(bu), len(pa))):
@@ -759,13 +1079,31 @@ class C14(Check):
     def finding_key(self, case, obs, failure):
         if case["kind"] == "cksum":
             if "exc" in obs: return "cksum:%s-length:%s" % ("odd" if len(case["data"]) // 2 % 2 else "even", obs["exc"])
+            if obs.get("forms"): return "cksum:call-forms"
             return "cksum:value"
-        sigs = {L["k"]: self._sig(L) for L in case["layers"]}
+        if case["kind"] == "seq":
+            m = re.match(r"\[(second object|pack after a field change|second pack)\] (.*)", failure, re.S)
+            if m:
+                which = m.group(1)
+                layers, o = (case["other"], obs["B"]) if which == "second object" else (self.apply_delta(case["layers"], case.get("delta", [])), obs["A2"])
+                tag = {"second object": "other", "pack after a field change": "set:" + ",".join(sorted({"%s.%s" % (case["layers"][d["i"]]["k"], d["f"]) for d in case["delta"]})),
+                       "second pack": "pack2"}[which]
+                return "seq:%s:%s" % (tag, self.stack_key(layers, o, m.group(2)))
+            if failure.startswith("repeated call differs") or failure.startswith("repeating a call") or failure.startswith("setting a field"):
+                return "seq:" + re.sub(r" at .*", "", failure)[:60] + ":" + "/".join(self._sig(L) for L in case["layers"] if L["k"] not in TERMINAL)
+            return "seq:first:" + self.stack_key(case["layers"], obs if "A1" not in obs else dict(obs["A1"], **{k: obs[k] for k in ("exc", "stage", "where") if k in obs}), failure)
+        return self.stack_key(case["layers"], obs, failure)
+
+    def stack_key(self, layers, obs, failure):
+        sigs = {L["k"]: self._sig(L) for L in layers}
         if failure.startswith("pack() raises") or failure.startswith("constructor raises"): return "%s:%s:%s" % (obs["stage"], obs["where"], obs["exc"])
         if failure.startswith("wire "):
             k = failure.split()[1].rstrip(":")
             what = re.sub(r"\b[0-9a-f]{4}\b|\d+", "N", failure.split(": ", 1)[1])[:48]
             return "wire:%s:%s" % (sigs.get(k, k), what)
+        if failure.startswith("reference "):
+            k = failure.split()[1].rstrip(":")
+            return "ref:%s:%s" % (sigs.get(k, k), failure.split("(", 1)[1].split(")")[0] if "(" in failure else "")
         if failure.startswith("parsing the packed"): return "parse:%s:%s" % (obs["where"], obs["exc2"])
         if failure.startswith("re-parsed chain differs"):
             m = re.search(r"built (\S+), parsed (\S+)", failure)
@@ -778,7 +1116,7 @@ class C14(Check):
             k, f = kf.split(".", 1)
             return "reparse-field:%s.%s" % (sigs.get(k, k), f)
         if failure.startswith("re-pack of"): return "repack:%s:%s" % (obs["where"], obs["repack_exc"])
-        if failure.startswith("re-pack differs"): return "repack-diff:" + "/".join(self._sig(L) for L in case["layers"] if L["k"] not in TERMINAL)
+        if failure.startswith("re-pack differs"): return "repack-diff:" + "/".join(self._sig(L) for L in layers if L["k"] not in TERMINAL)
         return failure[:60]
 
     def nontrivial(self, case, obs):
@@ -788,6 +1126,14 @@ class C14(Check):
 
     def shrink_candidates(self, case):
         if case["kind"] == "mutparse": return
+        if case["kind"] == "seq":
+            if case.get("other") is not None: yield {k: v for k, v in case.items() if k not in ("other", "bfirst")}
+            for j in range(len(case.get("delta", []))):
+                yield dict(case, delta=case["delta"][:j] + case["delta"][j + 1:])
+            t = case["layers"][-1]
+            if t["k"] == "bytes" and len(t["data"]) > 8 and not any(d["f"] == "data" for d in case.get("delta", [])):
+                yield dict(case, layers=self.fixup(case["layers"][:-1] + [dict(t, data=t["data"][:8])]))
+            return
         if case["kind"] == "cksum":
             d = case["data"]
             for n in (2, 4, len(d) // 2 // 2 * 2):
